@@ -301,6 +301,22 @@ pub fn cond<'a, O, F: Fn(&'a [u8]) -> IResult<&'a [u8], O>>(b: bool, f: F) -> (g
         forall|i: &'a [u8], r: IResult<&'a [u8], Option<O>>| #[trigger] g.ensures((i,), r) ==> r == cond_map(b, fun_of(f)(i), i),
 { |i: &'a [u8]| -> IResult<&'a [u8], Option<O>> { unimplemented!() } }
 
+// nom::combinator::verify(first, second): run first; keep its Ok iff second(&output), otherwise
+// Error(make_error(input, Verify)) at the ORIGINAL input; errors of first propagated unchanged.   [combinator/mod.rs]
+// ASSUMED here; OBLIGATION of Kani harness shim_verify (real nom, bounded input).
+#[verifier::external_body]
+pub fn verify<'a, O, F: Fn(&'a [u8]) -> IResult<&'a [u8], O>, G: Fn(&O) -> bool>(first: F, second: G) -> (h: impl Fn(&'a [u8]) -> IResult<&'a [u8], O>)
+    requires forall|i: &'a [u8]| #[trigger] first.requires((i,)), forall|x: &O| #[trigger] second.requires((x,)),
+    ensures
+        forall|i: &'a [u8]| #[trigger] h.requires((i,)),
+        forall|i: &'a [u8], r: IResult<&'a [u8], O>| #[trigger] h.ensures((i,), r) ==>
+            exists|r1: IResult<&'a [u8], O>| #[trigger] first.ensures((i,), r1) && match r1 {
+                Ok((rem, o)) => exists|b: bool| #[trigger] second.ensures((&o,), b) && (if b { r == r1 }
+                    else { r == Err::<(&'a [u8], O), Err<Error<&'a [u8]>>>(Err::Error(Error { input: i, code: ErrorKind::Verify })) }),
+                Err(e) => r == r1,
+            },
+{ |i: &'a [u8]| -> IResult<&'a [u8], O> { unimplemented!() } }
+
 // the u16-length-prefixed block reader as a parser value usable under complete()/opt(): derived facts, proved once
 pub proof fn lemma_length_data_u16_is_fun<'a, G: Fn(&'a [u8]) -> IResult<&'a [u8], &'a [u8]>>(g: G)
     requires
